@@ -89,16 +89,17 @@ class AbsGenerator(Builder):
     """an abstract generator object: an instance of the real Generator class whose group operations are the
     uninterpreted functions of pyvc.group; its order n and field modulus p are symbolic primes (n, p >= 3, p = 3 mod 4)"""
 
-    def __init__(self, cls=None, concrete=None, table=False):
+    def __init__(self, cls=None, concrete=None, table=False, p=None, n=None):
         from pycoin.ecdsa.Generator import Generator
         self.cls = cls or Generator
         self.concrete = concrete      # native generator used for sampling / replay (default secp256k1)
         self.table = table            # also model the fields set up by Generator.__init__ for raw_mul / __mul__
+        self.p_value, self.n_value = p, n     # concrete field modulus / order (group operations stay abstract)
 
     def symbolic(self, ip, name):
         st = ip.st
-        n = fresh(name + "_order", 'int')
-        p = fresh(name + "_p", 'int')
+        n = fresh(name + "_order", 'int') if self.n_value is None else SV(z3.IntVal(self.n_value), 'int')
+        p = fresh(name + "_p", 'int') if self.p_value is None else SV(z3.IntVal(self.p_value), 'int')
         st.assume(z3.And(n.e >= 3, p.e >= 3, n.e % 2 == 1, p.e % 4 == 3))
         # the quantifier of C01/C02: a group of prime order over a prime field (is_prime is uninterpreted: spec/numth.py)
         isp = z3.Function('is_prime', z3.IntSort(), z3.BoolSort())
@@ -106,7 +107,7 @@ class AbsGenerator(Builder):
         st.ghost['group_p'] = p
         st.ghost['group_n'] = n
         f = G_.F()
-        fields = {'_order': n, '_p': p, '_a': fresh(name + "_a", 'int'), '_b': fresh(name + "_b", 'int'),
+        fields = {'_order': n if self.n_value is None else self.n_value, '_p': p if self.p_value is None else self.p_value, '_a': fresh(name + "_a", 'int'), '_b': fresh(name + "_b", 'int'),
                   '_infinity': SV(f['INF'], G_.K_PT), '_pt': SV(f['G'], G_.K_PT)}
         st.assume(f['G'] != f['INF'])
         if self.table:
